@@ -38,6 +38,12 @@ const (
 	// Similarly, Appendix B says "Subr nesting, stack limit 10".
 	psCallStackSize = 10
 
+	// maxOperators is the maximum number of operators executed by one call to Run.
+	// The nesting limit alone does not bound the work : a chain of n subroutines
+	// each calling the next k times requires k^n operations.
+	// The value is the one used by Harfbuzz (HB_CFF_MAX_OPS).
+	maxOperators = 10000
+
 	maxRealNumberStrLen = 64 // Maximum length in bytes of the "-123.456E-7" representation.
 )
 
@@ -128,6 +134,7 @@ func (p *Machine) Run(instructions []byte, localSubrs, globalSubrs [][]byte, han
 	p.ArgStack.Top = 0
 	p.callStack.top = 0
 
+	nbOperators := 0
 	for len(p.instructions) > 0 {
 		// Push a numeric operand on the stack, if applicable.
 		if hasResult, err := p.parseNumber(); hasResult {
@@ -138,6 +145,9 @@ func (p *Machine) Run(instructions []byte, localSubrs, globalSubrs [][]byte, han
 		}
 
 		// Otherwise, execute an operator.
+		if nbOperators++; nbOperators > maxOperators {
+			return errors.New("invalid CFF table (too many operators)")
+		}
 		b := p.instructions[0]
 		p.instructions = p.instructions[1:]
 
